@@ -290,7 +290,60 @@ def check_mutation_history(ctx, r):
         ctx.state("mutations_between_renderings", m)
 
 
+def check_saved_twice(ctx, rng):
+    """A static-site workflow: save a page, change the tree so that the document keeps its length (other text of the same length,
+    another attribute value of the same length, two children swapped, an element renamed h1 -> h2), save again to the SAME path:
+    the file is the second tree."""
+    import os
+    import shutil
+    import tempfile
+
+    d = tempfile.mkdtemp(prefix="hv-c01-")
+    try:
+        f = os.path.join(d, "page.html")
+        words = ["alpha", "bravo", "delta", "gamma", "omega"]
+        a, b = rng.sample(words, 2)
+        r = gen.TAG("div", gen.TAG("h1", gen.T(a), attrs=[["title", {"t": "str", "s": a}]]), gen.TAG("p", gen.T("one")), gen.TAG("p", gen.T("two")), attrs=[["id", {"t": "str", "s": "k1"}]])
+        live = gen.build(r)
+        via = rng.choice(["tag", "document", "list"])
+        target = live if via == "tag" else ht.HTMLDocument(live) if via == "document" else ht.TagList(live)
+        target.save_html(f)
+        change = rng.choice(["text", "attr", "swap", "rename", "all"])
+        h1 = live.children[0]
+        if change in ("text", "all"):
+            h1.children[0] = b
+            r["c"][0]["c"][0]["s"] = b
+        if change in ("attr", "all"):
+            h1.attrs["title"] = b
+            r["c"][0]["attrs"][0][1]["s"] = b
+        if change in ("swap", "all"):
+            live.children[1], live.children[2] = live.children[2], live.children[1]
+            r["c"][1], r["c"][2] = r["c"][2], r["c"][1]
+        if change in ("rename", "all"):
+            h1.name = "h2"
+            r["c"][0]["name"] = "h2"
+        target.save_html(f)
+        with open(f, encoding="utf-8") as fh:
+            out = fh.read()
+    finally:
+        shutil.rmtree(d, ignore_errors=True)
+    ctx.count("oracle.saved_twice")
+    body = out[out.index("<body>") + 6:out.rindex("</body>")]
+    wit = {"scenario": "saved twice", "via": via, "change": change, "output": body[:600]}
+    try:
+        forest = [n for n in tokenizer.build_tree(tokenizer.tokenize(body)) if isinstance(n, tokenizer.Node) or n[1].strip()]
+        if len(forest) != 1:
+            raise Mismatch("root-structure", "not a single root in <body>")
+        compare(forest[0], r, " \t\r\n\f")
+    except tokenizer.Forged as e:
+        ctx.violation("stale-after-mutation:forged", "page saved twice: %s" % e, wit)
+    except Mismatch as mm:
+        ctx.violation("stale-after-mutation:" + mm.key, "the file written by the second save_html() is not the tree that was saved (%s changed): %s" % (change, mm), wit)
+
+
 def replay(ctx, w):
+    if w.get("scenario") == "saved twice":
+        return
     if "recipe_after_mutation" in w:
         return
     check_case(ctx, w["recipe"], (0, "\n"))
@@ -417,6 +470,8 @@ def _run(ctx):
         check_case(ctx, long_text, (2, "\r\n"))
         ctx.count("degenerate_shapes", 3)
 
+    for _ in range(ctx.budget(30, 3000)):
+        ctx.guard(check_saved_twice, ctx, rng, witness={"scenario": "saved twice"})
     # 3. random trees
     sampled = False
     for _ in range(ctx.budget(4000, 320000)):
